@@ -324,10 +324,17 @@ func (d *detInfo) rangeOf(e *termEnv, v ssa.Value) interval {
 		if ranged := rangeIndexOf(bo); ranged != nil {
 			// the index of "for i := range s": [0, len(s)-1]; the length is known for a re-sliced s = t[lo:hi]
 			sl, isSl := ranged.(*ssa.Slice)
-			if !isSl || sl.High == nil || sl.Max != nil {
+			if !isSl || sl.Max != nil {
 				return interval{why: "range over a slice of unknown length: " + e.termOf(ranged).String()}
 			}
-			hi, okh := d.linOf(e.termOf(sl.High))
+			// an open-ended re-slice of a pixel row ends at the row's length = frame width = columnStop + start
+			// (frames are allocated for the camera the detector was built for: ctor relation columnStop = ResX - start)
+			hi, okh := lin{c: 1, s: 1}, false
+			if sl.High != nil {
+				hi, okh = d.linOf(e.termOf(sl.High))
+			} else if _, _, _, _, _, isRow := pixRowOf(sl.X); isRow {
+				okh = true
+			}
 			lo := lin{}
 			okl := true
 			if sl.Low != nil {
@@ -427,6 +434,23 @@ func pixAddrS(v ssa.Value) (frame, row, col, low ssa.Value, sliced, ok bool) {
 		if fa, ok2 := u.X.(*ssa.FieldAddr); ok2 && isPixField(fa) {
 			return fa.X, ia.Index, nil, nil, false, true
 		}
+	}
+	return
+}
+
+// pixRowOf: v is a whole pixel row X.Pix[i] (loaded).
+func pixRowOf(v ssa.Value) (frame, row, col, low ssa.Value, sliced, ok bool) {
+	u, isLoad := v.(*ssa.UnOp)
+	if !isLoad || u.Op != token.MUL {
+		return
+	}
+	ia, isIA := u.X.(*ssa.IndexAddr)
+	if !isIA {
+		return
+	}
+	f, r, c, lo, sl, ok2 := pixAddrS(ia)
+	if ok2 && c == nil && !sl {
+		return f, r, nil, lo, false, true
 	}
 	return
 }
